@@ -1,8 +1,12 @@
 import LlirModel.Drv.EncOps
+import LlirModel.Drv.LitOps
 open Llir Llir.Drv
 
 def dispatch (op : String) (args : List String) : String :=
   match encOps op args with
+  | some r => r
+  | none =>
+  match litOps op args with
   | some r => r
   | none => "unknown-op"
 
